@@ -68,6 +68,16 @@ CHECKS = {
    "Every concatenation of 0..k catalogue records followed by every terminator class, and every string up to the stated length over record-oriented alphabets, is parsed by the multi-record parsers and by an explicit loop over the single-record parser; records, stop position and failure condition must coincide; the deprecated alias must equal parse_tls_plaintext on every buffer.",
    "Trusted: the single-record parsers (decided by C02/C03/C10).",
    "DESIGN.md section 3 C16"),
+ "C11": (True, "exploration",
+   "complete finite-domain sweep: every value of each enumerated wire field inside an otherwise well-formed structure, against strict walkers",
+   "For each of ~38 enumerated fields that do not select the structure being parsed, all 256 / 65536 values are placed in a well-formed enclosing structure and parsed through every entry point exposing the field; the decoded value must equal the reference decode, so the field is preserved and nothing else changes. The domains are finite and enumerated completely.",
+   "Trusted: strict walkers; the list of fields (evidence key 'fields') follows the property statement. Selector fields are excluded as the statement says.",
+   "DESIGN.md section 3 C11"),
+ "C15": (True, "exploration",
+   "bounded-exhaustive enumeration of parsed and constructed hello values (catalogue hellos, all random lengths 0..40, leading-word pattern sweeps, cipher lists covering all 65536 ids)",
+   "Every accessor / helper of the ClientHello trait (TLS and DTLS), the constructors and getters are evaluated on all catalogue hellos, on constructed values with every random length, on complete half-word sweeps and bit patterns of the leading random word and on cipher lists covering the whole id space, and compared with the structure's own fields and the registry.",
+   "Trusted: the registry file for listed ids. The 2^32 leading words are covered by two complete 2^16 half-word sweeps plus bit patterns, not completely.",
+   "DESIGN.md section 3 C15"),
 }
 PENDING_REASON = "check not built yet in this round (work in progress; see DESIGN.md appendix C for the build order)"
 
